@@ -576,12 +576,19 @@ var Join = func(done chan struct{}) {
 	case <-time.After(20 * time.Millisecond):
 	}
 	if quiet.Settle(isDone, 5) {
+		hungMu.Lock()
 		Hung++
+		hungMu.Unlock()
 	}
 }
 
 // Hung counts message handlers that never returned (the process went quiet with the handler still blocked).
 var Hung int
+
+var hungMu sync.Mutex
+
+// HungCount reads Hung under its lock (for checks that run several client threads at once).
+func HungCount() int { hungMu.Lock(); defer hungMu.Unlock(); return Hung }
 
 // BranchRollback asks the client to roll one branch back; ok=false means no response.
 func (tc *TC) BranchRollback(xid string, b *Branch) (message.BranchRollbackResponse, bool) {
